@@ -106,8 +106,9 @@ class Disconnection:
       if isinstance(ref.line, gfapy.Line):
         ref.line._update_references(self, None, k)
     elif isinstance(ref, list):
-      for i in range(len(ref)):
-       self._remove_backreference(ref[i], k)
+      # (a copy: a group which lists itself shortens the list meanwhile)
+      for elem in list(ref):
+       self._remove_backreference(elem, k)
 
   def _disconnect_dependent_line(self, ref):
     if isinstance(ref, gfapy.OrientedLine):
